@@ -84,6 +84,7 @@ type sibDiff struct {
 
 func siblingDiffs(all map[string][]cmpSite) []sibDiff {
 	fam := map[string]map[string][]cmpSite{}
+	other := map[string]map[string][]cmpSite{} // the comparisons of the copy that govern no refusal
 	for fn, sites := range all {
 		i := strings.Index(fn, ".")
 		pkg, name := fn[:i], fn[i+1:]
@@ -102,8 +103,16 @@ func siblingDiffs(all map[string][]cmpSite) []sibDiff {
 		for _, s := range sites {
 			// nil tests are err.flow's; the bound of a plain counting loop (i := 0; i < n; i++, i not written in the body)
 			// says what `range` over the same thing says, whatever n is called
-			if !isNilTest(s) && !s.full {
+			// and only comparisons that govern a refusal or a skip (an error, false, REJECT/IGNORE, continue, break)
+			// are checks a copy can lose: one that selects a value (a clamp, a flag test before an update, the bound of
+			// a reslice) is rewritten freely — as min/max, as &^, as [:min(n, k)] — and is formula.spec's business
+			if !isNilTest(s) && !s.full && s.rop != 0 {
 				fam[name][pkg] = append(fam[name][pkg], s)
+			} else if !isNilTest(s) && !s.full {
+				if other[name] == nil {
+					other[name] = map[string][]cmpSite{}
+				}
+				other[name][pkg] = append(other[name][pkg], s)
 			}
 		}
 		if fam[name][pkg] == nil {
@@ -164,6 +173,26 @@ func siblingDiffs(all map[string][]cmpSite) []sibDiff {
 			cancel(func(x, y sibItem) bool {
 				return x.a == y.a && x.ra == y.ra && pol(x.sa, y.sa) && len(stillDeclaredIn(forkFn, []string{x.n}, append([]string{y.n, y.r}, y.uses...))) == 0
 			})
+			// what is left on one side may still be made by the other copy where it governs no refusal there (a
+			// `continue` guard hoisted into a condition around the loop, a test that selects instead of skipping)
+			drop := func(items []sibItem, pool []cmpSite) []sibItem {
+				var keep []sibItem
+				for _, it := range items {
+					found := false
+					for _, s := range pool {
+						if canonCut(s.pr, s.op) == it.r || (canonCutAbs(s.pa, s.op) == it.a && canonCutAbs(s.pra, s.op) == it.ra) {
+							found = true
+							break
+						}
+					}
+					if !found {
+						keep = append(keep, it)
+					}
+				}
+				return keep
+			}
+			bs = drop(bs, other[name][f])
+			fs = drop(fs, other[name][prev])
 			d.items = append(append(d.items, bs...), fs...)
 			sort.Slice(d.items, func(i, j int) bool { return d.items[i].sign+d.items[i].a < d.items[j].sign+d.items[j].a })
 			out = append(out, d)
